@@ -670,10 +670,14 @@ def get_roundtrip(ctx, worlds):
     n = 300 if not ctx.thorough() else 5000
     bad = 0
     for i in range(n):
-        raw = [rng.randrange(0, 65536), rng.randrange(0, 65536), rng.randrange(0, 65536), rng.randrange(1500, 9001)]
-        if i < 8:
-            raw = [[0, 0, 0, 2700], [65535, 65535, 65535, 9000], [65534, 1, 65534, 1500], [1, 65534, 1, 2500],
-                   [32767, 32768, 32767, 3500], [32768, 32767, 32768, 4000], [21845, 43690, 10922, 2700], [65535, 0, 0, 0]][i]
+        # each component on its own: an end of the range or anything (one component at full scale next to others that are not)
+        comp = lambda: rng.choice([0, 65535, 65534, 1, rng.randrange(0, 65536), rng.randrange(0, 65536), rng.randrange(0, 65536)])
+        raw = [comp(), comp(), comp(), rng.randrange(1500, 9001)]
+        fixed = [[0, 0, 0, 2700], [65535, 65535, 65535, 9000], [65534, 1, 65534, 1500], [1, 65534, 1, 2500],
+                 [32767, 32768, 32767, 3500], [32768, 32767, 32768, 4000], [21845, 43690, 10922, 2700], [65535, 0, 0, 0],
+                 [100, 65535, 300, 3500], [100, 300, 65535, 3500], [65535, 65535, 12345, 2700], [0, 65535, 0, 2700], [12345, 0, 65535, 2700]]
+        if i < len(fixed):
+            raw = fixed[i]
         dev.color = list(raw)
         r = U.run_script(w, 'units logical\nget "L1"\nset "L1"\n')
         ctx.count()
